@@ -190,11 +190,15 @@ def stepSt (st : St) (toks : List String) : St × String :=
     match nid.toNat? with
     | none => (st, "bad-op")
     | some nid =>
+      -- "<nid> raw <event…>": the cell did not decrypt under the circuit's keys (or was never encrypted)
+      let (authentic, rest) := match rest with
+        | "raw" :: r => (false, r)
+        | r => (true, r)
       match st.nodes.find? (fun e => e.1 == nid), parseEv rest with
       | some (_, n, ids), none =>
         if rest == ["show"] then (st, s!"[] | {showState n ids}") else (st, "bad-op")
       | some (_, n, ids), some (ev, newIds) =>
-        let (n', outs) := step Free n ev
+        let (n', outs) := deliverCell Free n authentic ev
         let ids' := newIds.foldl (fun acc i => insertSorted i acc) ids
         (⟨setNode st.nodes nid (n', ids')⟩, s!"[{",".intercalate (outs.map showOut)}] | {showState n' ids'}")
       | none, _ => (st, "no-node")
